@@ -164,6 +164,20 @@ func (db *DB) Merge() error {
 		}
 	}
 
+	// merge 期间的并发写入会使旧记录失效而不被重写, 但这些新写入此时可能尚未持久化:
+	// 完成标识一旦存在, 下次 Open 就会用重写结果替换旧数据文件, 若此后断电丢失了尚未持久化的新记录,
+	// 对应的 key 将同时失去新旧两个版本. 因此写入完成标识之前必须先将当前活跃文件持久化
+	// (期间切换产生的旧数据文件在切换时已持久化)
+	db.mu.Lock()
+	if db.activeFile != nil {
+		if err := db.activeFile.Sync(); err != nil {
+			db.mu.Unlock()
+			return err
+		}
+		db.bytesWrite = 0
+	}
+	db.mu.Unlock()
+
 	verifhook.Point("merge.beforeMarker", "")
 	// 在 merge 临时目录创建并打开 merge 完成标识文件
 	mergeFinishedFile, err := datafile.OpenFile(mergePath, 0,
